@@ -160,6 +160,77 @@ def _pred_calls(e, db=None, f=None):
                                                             "is_nfkd_quick", "is_alphabetic", "should_ignore", "to_lowercase", "to_uppercase")})
 
 
+@rule("C07.table-complete", "every two-column line of rewrite.def becomes a key of the automaton: the insertion into the replacement map is "
+                            "conditional only on the line kind and on the duplicate rejection, and the automaton's patterns / replacements are "
+                            "built from the WHOLE map (no filter / skip / take, no guard around the pushes) — an entry mapping a key to itself "
+                            "is not a no-op: it shields its span from lower-casing / NFKC and shadows shorter keys inside it")
+def table_complete(db, ctx):
+    from ..loops import iterations, chain as lchain, filter_atoms
+    from ..inline import nf
+    rl = db.view(db.one("read_rewrite_lists", PLUGIN))
+    ins = [(c, ps) for c, ps in walk(rl.hir) if c.get("k") == "MethodCall" and c.get("method") == "insert" and len(c["args"]) == 2 and
+           "HashMap" in (c.get("rty") or "") and (c["args"][1].get("ty") or "").endswith("String")]
+    if not ins:
+        raise AnchorMissing("read_rewrite_lists: insertion into the replacement map")
+
+    def allowed(a):
+        a = peel(a)
+        txt = render(a, x=True)
+        c = cmp_atom(a)
+        if c and (".len()" in txt and (lit_int(c[1]) is not None or lit_int(c[2]) is not None)):
+            return "line kind (number of columns)"
+        if a.get("k") == "MethodCall" and a.get("method") in ("is_empty", "contains_key", "starts_with"):
+            return "blank line / duplicate key"
+        if c and any(peel(x).get("k") == "Lit" and peel(x).get("t") == "char" for x in (c[1], c[2])):
+            return "comment line"
+        return None
+    for c, ps in ins:
+        pcs = path_conditions(c["id"], rl.hir) or []
+        other = []
+        for cn, pol in pcs:
+            if isinstance(cn, dict):
+                for a, p in atoms(cn, pol):
+                    if allowed(a) is None:
+                        other.append(("" if p else "!") + render(a)[:60])
+        ctx.ob("read_rewrite_lists|every-replacement-line-inserted", not other,
+               "the replacement map insertion is conditional on line kind / duplicate rejection only; further conditions: %s" % other, fn=rl, site=c.get("sp"))
+    # the patterns handed to the automaton: built by an unfiltered pass over the map
+    n_it = 0
+    for itn in iterations(rl.hir):
+        pushes = [p for p, _ in walk(itn["body"]) if p.get("k") == "MethodCall" and p.get("method") == "push"]
+        ch, base = lchain(db, rl, itn["it"])
+        if not pushes or "replace_char_map" not in nf(base):
+            continue
+        n_it += 1
+        names = [m for m, _ in ch]
+        dropping = sorted(set(names) & {"filter", "filter_map", "skip", "take", "step_by", "skip_while", "take_while", "dedup"})
+        guarded = []
+        for p_ in pushes:
+            for cn, pol in (path_conditions(p_["id"], itn["body"]) or []):
+                if isinstance(cn, dict):
+                    guarded.append(render(cn)[:60])
+        ctx.ob("read_rewrite_lists|automaton-from-whole-map", not dropping and not guarded,
+               "automaton keys / replacements are pushed for every entry of the map: dropping adaptors %s, conditions around the pushes %s" % (dropping, guarded),
+               fn=rl, site=itn["node"].get("sp"))
+    if n_it == 0:
+        # collected rather than pushed: keys().cloned().collect() / unzip — the chain must not drop entries either
+        for c, _ in walk(rl.hir):
+            if c.get("k") == "MethodCall" and c.get("method") in ("collect", "unzip") and "replace_char_map" in render(c, x=True):
+                ch, base = lchain(db, rl, c["recv"])
+                names = [m for m, _ in ch]
+                dropping = sorted(set(names) & {"filter", "filter_map", "skip", "take", "step_by", "skip_while", "take_while", "dedup"})
+                n_it += 1
+                ctx.ob("read_rewrite_lists|automaton-from-whole-map", not dropping, "automaton keys / replacements are collected from the whole map: dropping adaptors %s" % dropping, fn=rl)
+    ctx.floor(2)
+
+
+@rule("C07.edit-space", "both rewriting paths search InputBuffer::current() and address their edits in that text's byte offsets (re-evaluation of "
+                        "C01.edit-space: searching the original text while editing the current one is only right for the first plugin)")
+def edit_space_reeval(db, ctx):
+    from . import C01
+    C01.edit_space(db, ctx)
+
+
 @rule("C07.path-choice", "replace_fast is reachable only when neither whole-text predicate holds, and the whole-text predicates use the "
                          "same library predicates as the per-character decisions of replace_slow")
 def path_choice(db, ctx):
